@@ -232,7 +232,7 @@ class Array(Base):
         result = func(*array_args, **self._extract_arrays_from_kwargs(kwargs))
 
         unit = None
-        if result.dtype in (int, float):
+        if np.issubdtype(result.dtype, np.number):
             if func.__name__ in APPLY_OP_TO_UNIT:
                 unit = func(
                     *self._extract_units(args),
